@@ -394,7 +394,11 @@ def b_gassner(ctx):
     import pylife.strength.solidity   # noqa
     import pylife.stress.collective   # noqa
     limits_pool = [[0., 200., 400., 600., 800.], [0., 100., 150., 400., 1000.], [50., 60., 300.], [0., 500.], [10., 20., 40., 80.]]
-    curves = [pd.Series({'k_1': 5.0, 'ND': 1e6, 'SD': 100.0}), pd.Series({'k_1': 3.0, 'ND': 2e6, 'SD': 300.0, 'k_2': 8.0})]
+    # (the last two: design curves given at a failure probability other than 50 % with a scatter - added after seed C11-e evaluated the damage at the curve's own
+    # failure probability while the Gassner cycles are read from the 50 % curve)
+    curves = [pd.Series({'k_1': 5.0, 'ND': 1e6, 'SD': 100.0}), pd.Series({'k_1': 3.0, 'ND': 2e6, 'SD': 300.0, 'k_2': 8.0}),
+              pd.Series({'k_1': 5.0, 'ND': 1e6, 'SD': 200.0, 'TN': 4.0, 'TS': 1.0, 'failure_probability': 0.1}),
+              pd.Series({'k_1': 4.0, 'ND': 2e6, 'SD': 180.0, 'TN': 3.0, 'failure_probability': 0.025})]
     ctx.bound = "class limits from a pool of 5 (regular / irregular, 1-4 classes; members listed ascending, descending and rotated) x all count patterns over {0,1,10} with >= 1 occupied class x 2 curves x load factors {0.5, 1, 2.5}"
     ctx.rule = "non-trivial: at least one empty class; distinct by (limits, counts, curve, factor)"
     ctx.exhaustive = True
@@ -423,6 +427,10 @@ def _one_histogram(ctx, hist, limits, counts, ci, wc, fac, order, perm):
                     lc = hist.load_collective
                     ctx.case(0 in counts or order != 'ascending', key=(tuple(limits), counts, ci, fac, order))
                     otag = '' if order == 'ascending' else f':members-{order}'
+                    # a curve stated at a failure probability other than 50 % whose scatter in load direction is not 1 (here: derived from TN): tagged, the known
+                    # finding about Miner-Haibach on such curves must not hide a failure on any other curve
+                    if float(wc.get('failure_probability', 0.5)) != 0.5 and float(wc.get('TS', 0.0)) != 1.0 and 'TN' in wc:
+                        otag = ':design-curve-with-load-scatter' + otag
                     for rule, acc, modifier in (('elementary', 'gassner_miner_elementary', 'miner_elementary'), ('haibach', 'gassner_miner_haibach', 'miner_haibach')):
                         amp_max_occ = float(lc.amplitude[hist.values > 0].max())
                         key = ('below-endurance-limit' if amp_max_occ < wc.SD else 'reaches-endurance-limit') + ':' + \
